@@ -1,6 +1,7 @@
 (** * Props/C09.v — Writing a system as btor2 and reading it back preserves it.
 
-    Model of the writer: [Btor2Ser.serialize] (token lines, no names); model of the reader:
+    Models of the writer: [Btor2Ser.serialize] (token lines, no names) and [Btor2SerNames.serialize_named_v]
+    (the same with the name bookkeeping of serialize.rs); model of the reader:
     [Btor2Parse.parse_raw] / [parse_lines]; reference meaning of a text: [Btor2Sem.sem_run].
 
     PROVED (Proofs/Btor2Rt*.v, Proofs/Btor2RoundTrip.v), for ALL systems:
@@ -25,13 +26,22 @@
         twice the writer's id cache and the reader's maps diverge: [c09_dup_symbol] below);
         [sys_closed] is NOT needed (the writer refuses undeclared symbols).
 
-    NOT proved (false today, covered by the name oracle of the correspondence run):
+      roundtrip_sem for the writer WITH names ([C09_roundtrip_sem_named], [C09_roundtrip_sem_named_repo]) : the
+        same statement for [Btor2SerNames.serialize_named_v] (name tokens, label names, alias lines; every
+        writer variant, every name table) - the writer model the correspondence check compares token by
+        token with serialize.rs.  (Proofs/Btor2RtTail.v, Proofs/Btor2RtNamed.v)
+
+      names, PARTIAL ([C09_names_survive_inputs_partial], Proofs/Btor2NamesSurvive.v) : an input whose name
+        the writer prints on its declaration comes back as the same symbol at the same position.
+
+    NOT proved (false today in the recorded classes, covered by the name oracle of the correspondence run):
 
       roundtrip_full : roundtrip_sem plus: explicit, distinct names of inputs, states and outputs of
         a parsed system survive a further write/read cycle.   (names are string heuristics of
-        serialize.rs: is_autogen_name, decl_name, label names, alias lines; FALSE today, see
-        known_findings.txt, keys starting with names: ; Model/Btor2SerNames.v models the heuristics
-        exactly, with one flag per repair prepared under patches/0008, 0010, 0011)
+        serialize.rs: is_autogen_name, decl_name, label names, alias lines; FALSE in the classes
+        [KnownClass] - known_findings.txt, keys starting with names: - each refuted by a witness
+        below; Model/Btor2SerNames.v models the heuristics exactly, with one flag per repair prepared
+        under patches/0008, 0010, 0011)
 
     Also proved, per node: the reader inverts the writer's SPELLING node by node - every operator node
     ([C09_node_roundtrip]: the operator name the writer prints selects, in the reader's tables,
@@ -41,7 +51,7 @@
     reader returns for the written lines has the meaning btor2 assigns to those lines. *)
 From Coq Require Import List String NArith Bool.
 From Patronus Require Import SysClosed Btor2Parse Btor2Ser Btor2Sem Btor2Agree Btor2Witness Btor2NoCrash Btor2Sound Btor2ParseProofs Btor2SerProofs
-     Btor2RoundTripSpec Btor2RoundTrip Btor2RoundTripEnv.
+     Btor2RoundTripSpec Btor2RoundTrip Btor2RoundTripEnv Btor2SerNames Btor2RtNamed Btor2NamesSurvive.
 Import ListNotations.
 Open Scope N_scope.
 
@@ -128,6 +138,178 @@ Theorem C09_roundtrip_sem_repo :
     exists sy' tau pull, (forall dbg, parse_lines_v v dbg lines = POk sy') /\ rt_agrees sy sy' tau pull.
 Proof. exact roundtrip_sem_fix. Qed.
 Print Assumptions C09_roundtrip_sem_repo.
+
+(** ** the same for the writer WITH its name bookkeeping *)
+(** [serialize_named_v wv sy nm] is the writer model that the correspondence check compares token by token
+    with serialize.rs: name tokens on declarations and nodes, label names on output / bad / constraint
+    lines, trailing alias lines [<id> uext <sort> <target> 0 <name>] (which shift the ids of the next
+    section).  For EVERY writer variant [wv] (shipped or repaired) and EVERY name table [nm]: whenever it
+    returns lines, the reader accepts them in both build profiles and the result corresponds to [sy]
+    exactly as in [C09_roundtrip_sem] - names only feed the reader's name bookkeeping, and an alias line
+    binds a fresh id, which nothing refers to, to its operand. *)
+Theorem C09_roundtrip_sem_named :
+  forall wv sy nm lines,
+    sys_ok_weak sy = true -> NoDup (declared sy) -> sys_fits sy = true ->
+    serialize_named_v wv sy nm = POk lines -> N.of_nat (List.length lines) <= U32MAX ->
+    exists sy' tau pull, (forall dbg, parse_lines dbg lines = POk sy') /\ rt_agrees sy sy' tau pull.
+Proof. exact roundtrip_sem_named. Qed.
+Print Assumptions C09_roundtrip_sem_named.
+
+(** The reader of /repo ([Fix]) and the prepared [Fix2].  [Fix2] (patches/0009) refuses an array operand
+    of [uext], the idiom of the alias lines: it goes with a writer that prints no array alias
+    (patches/0008, [w_no_array_alias]); with the shipped writer and [Fix2] an array alias line is an error
+    ([C09_fix2_needs_no_array_alias] below). *)
+Theorem C09_roundtrip_sem_named_repo :
+  forall v wv sy nm lines,
+    is_fix v = true -> (v = Fix2 -> w_no_array_alias wv = true) ->
+    sys_ok sy = true -> NoDup (declared sy) -> sys_fits sy = true ->
+    serialize_named_v wv sy nm = POk lines -> N.of_nat (List.length lines) <= U32MAX ->
+    exists sy' tau pull, (forall dbg, parse_lines_v v dbg lines = POk sy') /\ rt_agrees sy sy' tau pull.
+Proof. exact roundtrip_sem_named_fix. Qed.
+Print Assumptions C09_roundtrip_sem_named_repo.
+
+(** the hypothesis on [Fix2] is necessary: an array state named [mem] that an output with another name
+    refers to directly gets an alias line, which [Fix2] refuses *)
+Definition c09_arr_alias : sys :=
+  let m := ArraySymbol "mem" 2 8 in
+  {| s_inputs := [];
+     s_states := [ {| st_sym := m; st_init := None; st_next := Some m |} ];
+     s_outputs := [("o", m)]; s_bads := []; s_constraints := [] |}.
+
+Example C09_fix2_needs_no_array_alias :
+  sys_ok c09_arr_alias = true /\
+  match serialize_named_v writer_cur c09_arr_alias [] with
+  | POk ls => parse_lines_v Fix2 true ls = PErr /\ (exists sy', parse_lines_v Fix true ls = POk sy')
+  | _ => False
+  end.
+Proof. vm_compute. split; [reflexivity|]. split; [reflexivity|]. eexists. reflexivity. Qed.
+
+(** ** names through one write/read cycle *)
+(** The full statement (NOT proved as a whole; [KnownClass] collects the recorded finding classes):
+
+      names_survive_outside_known : forall v wv sy nm (sy parsed, KnownClass sy nm = false, explicit names
+        pairwise distinct), cycle wv v sy nm = POk sy' ->
+        every explicit (not [is_autogen_name]) name of an input, state and output of [sy] is the name at
+        the same position of [sy'].
+
+    PROVED, the part for INPUTS ([C09_names_survive_inputs_partial]), for every system (parsed or not),
+    every writer variant, every reader variant, both build profiles and EVERY name table: if the raw
+    names of the inputs are pairwise distinct, then every input whose name the writer prints on its
+    declaration ([in_named]: the name is not empty, not of the reader's default shape, and is not used as
+    a label - the writer's rule [decl_name], with the labels of [compute_labels]) comes back as THE SAME
+    SYMBOL (name and type) at the same position.  The label condition is necessary: an input that carries
+    the name of an output loses it ([C09_names_input_output_refuted], finding
+    names:inputs:same-name-as-output).  States and outputs: their names depend on every name handed out
+    before them in the order of the written text (node names, labels, alias lines); not proved - the
+    classes in which they are lost are refuted below, outside them the name oracle of the correspondence
+    run (exact model [serialize_named_v], token by token) is the evidence. *)
+Theorem C09_names_survive_inputs_partial :
+  forall v wv sy nm lines,
+    sys_ok_weak sy = true -> (is_fix v = true -> props_1bit sy = true) -> (v = Fix2 -> w_no_array_alias wv = true) ->
+    NoDup (declared sy) -> NoDup (map raw_name (s_inputs sy)) -> sys_fits sy = true ->
+    serialize_named_v wv sy nm = POk lines -> N.of_nat (List.length lines) <= U32MAX ->
+    exists sy', (forall dbg, parse_lines_v v dbg lines = POk sy') /\
+      Forall2 (fun i i' => in_named (label_ctx wv sy nm) i = true -> i' = i)
+              (s_inputs sy) (firstn (List.length (s_inputs sy)) (s_inputs sy')).
+Proof. exact names_survive_inputs. Qed.
+Print Assumptions C09_names_survive_inputs_partial.
+
+(** Non-vacuity: two named inputs, a named state with a bad label on it, a named output.  Every hypothesis
+    of [C09_names_survive_inputs_partial] and of [C09_roundtrip_sem_named_repo] holds for the writer and
+    reader of /repo, both inputs are [in_named], the system is outside [KnownClass], and (computed) ALL
+    its names survive: the state through the label of the bad line, the output through its label. *)
+Definition c09_named : sys :=
+  let a := BVSymbol "a" 1 in let b := BVSymbol "b" 1 in let s := BVSymbol "flag" 1 in
+  {| s_inputs := [a; b];
+     s_states := [ {| st_sym := s; st_init := Some (BVLiteral 1 0); st_next := Some (BVOr s a 1) |} ];
+     s_outputs := [("both", BVAnd s b 1)];
+     s_bads := [s];
+     s_constraints := [] |}.
+
+Example C09_names_hyps :
+  sys_ok c09_named = true /\ sys_fits c09_named = true /\ KnownClass c09_named [] = false /\
+  forallb (in_named (label_ctx writer_repo c09_named [])) (s_inputs c09_named) = true /\
+  NoDup (declared c09_named) /\ NoDup (map raw_name (s_inputs c09_named)) /\
+  (exists lines, serialize_named_v writer_repo c09_named [] = POk lines /\ N.of_nat (List.length lines) <= U32MAX) /\
+  match cycle writer_repo Fix c09_named [] with
+  | POk sy' => names_of sy' = names_of c09_named /\ names_of c09_named = (["a"; "b"], ["flag"], ["both"])%string
+  | _ => False
+  end.
+Proof.
+  split; [vm_compute; reflexivity|]. split; [vm_compute; reflexivity|]. split; [vm_compute; reflexivity|].
+  split; [vm_compute; reflexivity|]. split.
+  { cbn [declared c09_named s_inputs s_states map st_sym app].
+    repeat (constructor; [cbn [In]; intros H; repeat (destruct H as [H|H]; [discriminate H|]); exact H|]). constructor. }
+  split.
+  { cbn [c09_named s_inputs map raw_name symbol_name].
+    repeat (constructor; [cbn [In]; intros H; repeat (destruct H as [H|H]; [discriminate H|]); exact H|]). constructor. }
+  split; [eexists; split; [vm_compute; reflexivity|vm_compute; discriminate]|].
+  vm_compute. split; reflexivity.
+Qed.
+
+(** The excluded classes are necessary: in each of them a name changes (writer and reader of /repo). *)
+(** names:states:dollar-cleanup - the alias line's name token goes through [clean_up_name] *)
+Definition c09_dollar : sys :=
+  let s := BVSymbol "$sig$8" 8 in
+  {| s_inputs := []; s_states := [ {| st_sym := s; st_init := None; st_next := Some s |} ];
+     s_outputs := [("o", s)]; s_bads := []; s_constraints := [] |}.
+
+Example C09_names_dollar_refuted :
+  sys_ok c09_dollar = true /\ kc_dollar c09_dollar [] = true /\
+  match cycle writer_repo Fix c09_dollar [] with
+  | POk sy' => names_of c09_dollar = ([], ["$sig$8"], ["o"])%string /\ names_of sy' = ([], ["_sig_8"], ["o"])%string
+  | _ => False
+  end.
+Proof. vm_compute. repeat split. Qed.
+
+(** names:inputs:same-name-as-output - the writer cannot print the name on the declaration *)
+Definition c09_input_output : sys :=
+  let a := BVSymbol "s2" 8 in
+  {| s_inputs := [a]; s_states := []; s_outputs := [("s2", a)]; s_bads := []; s_constraints := [] |}.
+
+Example C09_names_input_output_refuted :
+  sys_ok c09_input_output = true /\ kc_input_output c09_input_output = true /\
+  forallb (in_named (label_ctx writer_repo c09_input_output [])) (s_inputs c09_input_output) = false /\
+  match cycle writer_repo Fix c09_input_output [] with
+  | POk sy' => names_of c09_input_output = (["s2"], [], ["s2"])%string /\ names_of sy' = (["_input_0"], [], ["s2"])%string
+  | _ => False
+  end.
+Proof. vm_compute. repeat split. Qed.
+
+(** names:states:default-name-collision - a state [_state_1_0] next to a node named [_state_1] and two
+    states with default names: the second unnamed state takes [_state_1], the node becomes [_state_1_0] *)
+Definition c09_default_nm : names_map := [(BVNot (BVSymbol "_state_0" 8) 8, "_state_1"%string)].
+Definition c09_default_state : sys :=
+  let s0 := BVSymbol "_state_0" 8 in let s1 := BVSymbol "_state_2" 8 in let s2 := BVSymbol "_state_1_0" 8 in
+  {| s_inputs := [];
+     s_states := [ {| st_sym := s0; st_init := None; st_next := Some s0 |};
+                   {| st_sym := s1; st_init := None; st_next := Some s1 |};
+                   {| st_sym := s2; st_init := Some (BVNot s0 8); st_next := Some s2 |} ];
+     s_outputs := []; s_bads := []; s_constraints := [] |}.
+
+Example C09_names_default_state_refuted :
+  sys_ok c09_default_state = true /\ kc_default_like c09_default_state c09_default_nm = true /\
+  match cycle writer_repo Fix c09_default_state c09_default_nm with
+  | POk sy' => names_of sy' = ([], ["_state_0"; "_state_1"; "_state_1_0_0"], [])%string
+  | _ => False
+  end.
+Proof. vm_compute. repeat split. Qed.
+
+(** names:outputs:suffix-drift - the same for an output [_state_1_0] *)
+Definition c09_default_output : sys :=
+  let s0 := BVSymbol "_state_0" 8 in let s1 := BVSymbol "_state_2" 8 in
+  {| s_inputs := [];
+     s_states := [ {| st_sym := s0; st_init := None; st_next := Some s0 |};
+                   {| st_sym := s1; st_init := None; st_next := Some s1 |} ];
+     s_outputs := [("_state_1_0", BVNegate (BVNot s0 8) 8)]; s_bads := []; s_constraints := [] |}.
+
+Example C09_names_default_output_refuted :
+  sys_ok c09_default_output = true /\ kc_default_like c09_default_output c09_default_nm = true /\
+  match cycle writer_repo Fix c09_default_output c09_default_nm with
+  | POk sy' => names_of sy' = ([], ["_state_0"; "_state_1"], ["_state_1_0_0"])%string
+  | _ => False
+  end.
+Proof. vm_compute. repeat split. Qed.
 
 (** The complete, symmetric statement for closed systems (any reader variant [v]: [Cur] needs [sys_ok_weak]
     only, [Fix] = /repo and [Fix2] also need Boolean bad states and constraints): the system read back has
